@@ -47,8 +47,11 @@ Definition ivl := (Z * Z)%type.
 Definition covered (ivs : list ivl) (t : Z) : bool :=
   existsb (fun iv => (fst iv <=? t) && (t <=? snd iv)) ivs.
 
-(* memChunk / mmappedChunk: minTime, maxTime and the samples (oldest first) *)
-Record chunk := mkC { c_min : Z; c_max : Z; c_samples : list sample }.
+(* memChunk / mmappedChunk: minTime, maxTime and the samples (oldest first); c_ref = 0 for a
+   chunk that only lives in memory, k > 0 for a chunk written to the head chunk files under
+   the ref of the k-th series record of its series (a file chunk keeps the ref it was written
+   with, even when the memSeries later carries another ref) *)
+Record chunk := mkC { c_min : Z; c_max : Z; c_samples : list sample; c_ref : nat }.
 
 (* memSeries: chunks newest first; nextAt; whether the newest chunk is an open head chunk;
    all out-of-order samples of the series still in the head, in insertion order *)
@@ -100,13 +103,13 @@ Definition newest_max (cs : list chunk) : Z := match cs with [] => minInt64 | c 
 (* memSeries.append / appendPreprocessor / cutNewHeadChunk for an accepted in-order sample *)
 Definition append_io (cr : Z) (m : mseries) (x : sample) : mseries :=
   let t := st x in
-  let cut := mkMS (mkC t t [x] :: ms_chunks m) (rangeFor t cr) true (ms_ooo m) in
+  let cut := mkMS (mkC t t [x] O :: ms_chunks m) (rangeFor t cr) true (ms_ooo m) in
   match ms_chunks m with
   | [] => cut
   | c :: r =>
       if negb (ms_open m) then cut
       else if t >=? ms_nextAt m then cut
-      else mkMS (mkC (c_min c) t (c_samples c ++ [x]) :: r) (ms_nextAt m) true (ms_ooo m)
+      else mkMS (mkC (c_min c) t (c_samples c ++ [x]) (c_ref c) :: r) (ms_nextAt m) true (ms_ooo m)
   end.
 
 Definition acc := (sid * sample * bool)%type.   (* series, sample, true = out-of-order *)
@@ -319,8 +322,17 @@ Definition inorder_blocks_maxt (bs : list block) : option Z :=
 
 (* Close m-maps all but the newest chunk of every series (Head.mmapHeadChunks); Init loads the
    m-mapped chunks as they are and replays the WAL on top of them. *)
-Definition mmapped_chunks (m : mseries) : list chunk :=
-  if ms_open m then tl (ms_chunks m) else ms_chunks m.
+Definition on_disk (k : nat) (c : chunk) : chunk :=
+  mkC (c_min c) (c_max c) (c_samples c) (if Nat.eqb (c_ref c) 0 then k else c_ref c).
+(* all chunks but the open head chunk are (or get) written to the chunk files, under ref k if
+   they were not on disk yet *)
+Definition mmap_all (k : nat) (m : mseries) : list chunk :=
+  match ms_chunks m with
+  | c :: r => if ms_open m then c :: map (on_disk k) r else map (on_disk k) (c :: r)
+  | [] => []
+  end.
+Definition mmapped_chunks (k : nat) (m : mseries) : list chunk :=
+  let cs := mmap_all k m in if ms_open m then tl cs else cs.
 
 (* walSubsetProcessor.processWALSamples for one record of this series: below minValidTime or not
    above mmMaxTime -> skipped; not above the newest chunk's maxTime -> rejected by
@@ -339,17 +351,17 @@ Definition wal_of (wal : list (sid * option sample)) (i : sid) : list (option sa
    ones written when the series had been garbage collected and was created again) resets the
    memSeries to the m-mapped chunks found on disk FOR THAT REF (resetSeriesWithMMappedChunks:
    "any samples replayed till now would already be compacted"); the chunk files carry the ref the
-   memSeries had at Close (s_ref).  Sample records: below minValidTime or not above mmMaxTime ->
+   chunk had when it was written (c_ref; s_ref at Close for the new ones).  Sample records: below minValidTime or not above mmMaxTime ->
    skipped; otherwise they count for Head.updateMinMaxTime and are appended unless
    appendPreprocessor rejects them (not above the newest chunk's maxTime). *)
 Record rst := mkR { r_k : nat; r_m : mseries; r_mmMax : Z; r_mm : Z * Z }.
 
-Definition replay_entry (cr mv : Z) (refidx : nat) (mc : list chunk) (ooo : list sample)
+Definition replay_entry (cr mv : Z) (mc : list chunk) (ooo : list sample)
                         (r : rst) (e : option sample) : rst :=
   match e with
   | None =>
       let k := S (r_k r) in
-      let cs := if Nat.eqb k refidx then mc else [] in
+      let cs := filter (fun c => Nat.eqb (c_ref c) k) mc in
       mkR k (mkMS cs 0 false ooo) (newest_max cs)
           (match cs with [] => r_mm r
            | _ => (Z.min (fst (r_mm r)) (oldest_min cs), Z.max (snd (r_mm r)) (newest_max cs)) end)
@@ -365,7 +377,10 @@ Definition replay_entry (cr mv : Z) (refidx : nat) (mc : list chunk) (ooo : list
 
 Definition restart_series (cr mv : Z) (refidx : nat) (wal : list (option sample)) (ooo : list sample)
                           (m : mseries) (mm : Z * Z) : rst :=
-  fold_left (replay_entry cr mv refidx (mmapped_chunks m) ooo) wal (mkR O (mkMS [] 0 false ooo) minInt64 mm).
+  let r := fold_left (replay_entry cr mv (mmapped_chunks refidx m) ooo) wal (mkR O (mkMS [] 0 false ooo) minInt64 mm) in
+  (* chunks cut during the replay were m-mapped at once, under the ref of the first record *)
+  let m' := r_m r in
+  mkR (r_k r) (mkMS (mmap_all 1 m') (ms_nextAt m') (ms_open m') (ms_ooo m')) (r_mmMax r) (r_mm r).
 
 Definition restart (c : cfg) (reloaded : sid -> list sample) (s : state) : state :=
   let h := s_head s in
